@@ -98,7 +98,24 @@ def gen_plan(seed: int, tier: str) -> dict:
         op["t"] = t
         ops.append(op)
     ops.sort(key=lambda o: o["t"])
-    return {"mode": mode, "pairing": pairing, "ops": ops, "end": horizon + 8.0}
+    plan = {"mode": mode, "pairing": pairing, "ops": ops, "end": horizon + 8.0}
+    if mode != "ble" and r.random() < 0.3:
+        # the controller starts on a cache that already holds a service it cannot complete (address record expired): start-up then
+        # waits for an mDNS query, and other devices announce themselves meanwhile
+        net0 = r.choice([n for n in nets if n != "ble"])
+        stale = gen_advert(r, net0, "aa:bb:cc:dd:ee:09")
+        stale.update(valid=False, bad="no_addr")
+        delay = r.choice([0.0, 0.3, 1.0, 3.0])
+        during = []
+        for _ in range(r.choice([1, 1, 2])):
+            adv = gen_advert(r, net0, r.choice(IDS[:n_ids]))
+            adv.pop("bad", None)
+            adv["valid"] = True
+            adv["t"] = round(r.uniform(0.0, max(delay, 0.001)), 3)
+            during.append(adv)
+        plan["prestart"] = {"delay": delay, "stale": stale, "during": sorted(during, key=lambda a: a["t"])}
+        plan["end"] += delay
+    return plan
 
 
 # ---- reference parse -----------------------------------------------------------------------------
@@ -212,6 +229,28 @@ def execute(plan: dict, ch: Chooser) -> dict:
         mdns = disc.SimMDNS()
         cache = CharacteristicCacheMemory()
         ctls: dict = {}
+        disc.REQUEST_DELAY[0] = 0.0
+        pre = plan.get("prestart")
+        if pre:
+            disc.REQUEST_DELAY[0] = pre["delay"]
+            txt0, _ = build_txt(pre["stale"])
+            mdns.announce(HAP[pre["stale"]["net"]], pre["stale"]["name"], [], pre["stale"]["port"], txt0)  # in the cache, no address
+            ctx.probe("controller_started_on_incomplete_cache")
+
+            def early_deliver(adv):
+                rec = {"t": loop.time(), "adv": adv, "raised": None}
+                adverts.append(rec)
+                ctx.event("advert", adv["net"], adv["id"], adv["valid"], "during-start")
+                ctx.probe("advert_during_controller_start")
+                try:
+                    txt, addrs = build_txt(adv)
+                    mdns.announce(HAP[adv["net"]], adv["name"], addrs, adv["port"], txt)
+                except Exception as e:  # noqa: BLE001
+                    rec["raised"] = e
+                    ctx.violate("callback-raises", f"{adv['net']}/{type(e).__name__}/during-start", f"advert during controller start made the callback raise {e!r}")
+
+            for adv in pre["during"]:
+                loop.call_at(adv["t"], early_deliver, adv)
         if mode == "agg":
             top = Controller(async_zeroconf_instance=mdns, char_cache=cache)
             await top.async_start()
@@ -224,6 +263,7 @@ def execute(plan: dict, ch: Chooser) -> dict:
             ctls = {mode: c}
             finder = c
             top = None
+        disc.REQUEST_DELAY[0] = 0.0  # only the start-up query is slow; later look-ups keep the timing the oracle models
         # pairings
         for dev, kind in plan["pairing"].items():
             if kind == "none":
